@@ -74,6 +74,10 @@ func VerifHeapSane() bool {
 // VerifWithLock runs f while holding the package lock (schedule control for the checks, see internal/lockstep).
 func VerifWithLock(f func()) {
 	cc.lock.Lock()
-	defer cc.lock.Unlock()
 	f()
+	// starvation mode, see the in-memory storage's VerifWithLock
+	cc.lock.Unlock()
+	cc.lock.Lock()
+	time.Sleep(time.Millisecond)
+	cc.lock.Unlock()
 }
